@@ -110,11 +110,14 @@ const LATIN1: &[(&str, u32)] = &[
     ("\"", 2),
     ("'", 2),
     ("]", 2),
-    ("\u{a0}", 3),
-    ("é", 4),
-    ("ÿ", 2),
+    ("\u{a0}", 2),
+    ("é", 2),
+    ("ÿ", 1),
     ("\t", 1),
     ("\r", 1),
+    // Latin-1 byte pairs that happen to be valid UTF-8 sequences (C3 A9, C2 A0)
+    ("Ã©", 4),
+    ("Â\u{a0}", 3),
 ];
 
 fn table(a: Alpha) -> &'static [(&'static str, u32)] {
@@ -304,7 +307,9 @@ pub fn gen_comment(src: &mut Src, a: Alpha) -> String {
     if s.ends_with('-') {
         s.push('c');
     }
-    s
+    // a literal CR in a comment cannot be escaped; whether it is "verbatim" is not
+    // something the properties define, so comments stay clear of it
+    s.replace('\r', "r")
 }
 
 pub fn gen_pi(src: &mut Src, a: Alpha) -> (String, Option<String>) {
@@ -315,7 +320,8 @@ pub fn gen_pi(src: &mut Src, a: Alpha) -> (String, Option<String>) {
         while d.contains("?>") {
             d = d.replace("?>", "?");
         }
-        let d = d.trim_start_matches(|c| c == ' ' || c == '\t' || c == '\n' || c == '\r');
+        let d = d.replace('\r', "r");
+        let d = d.trim_start_matches(|c| c == ' ' || c == '\t' || c == '\n');
         if d.is_empty() {
             None
         } else {
